@@ -44,8 +44,8 @@ CHECKS = {
     note="Trusted: clang front end, gmgir lowering, own IR interpreter (C integer semantics; exact rational values for doubles in the query rule). Not decided: the spacing statements after floating-point rounding.",
     ref="DESIGN.md section 4 / C17"),
  "C18": dict(
-    level="other", technique="static analysis: taint analysis with bound-evidence over the grid generators; abstract interpretation of chooseNumberOfLevels; symbolic interpretation of the uniform generator in exact arithmetic; interpretation of the grid writer/reader over abstract text streams; structural constructor/endpoint rules",
-    text="Decides, from source: (memory safety) every integer in the grid generators that depends on the caller's parameters through a float->int conversion or unchecked arithmetic carries a runtime lower and upper bound before it is used as an index offset, iterator advance or shift amount (asserts are compiled out); constructors validate after the last coordinate write; (levels) chooseNumberOfLevels, interpreted for nr 2..139 x ntheta 2..129 x level caps, implies coarseningGrid's precondition level by level and rejects fewer than two levels; (values, exact arithmetic) the uniform generator with symbolic R0<Rmax yields end points exactly R0/Rmax, radii increasing by fixed positive fractions of Rmax-R0, fine nodes that are midpoints, divideBy2=k containing divideBy2=k-1 as every-second-node subgrid, angles j/ntheta of 2*pi with antipodal partners; (files) writer and reader interpreted over abstract streams: the reader delivers the written sequence in order and length into the same members, each value a function of the written value and the format only, validation precedes derived data, and library writers use a precision whose rounding stays below the tolerance of the reload checks. Not decided: the same value statements after floating-point rounding, the anisotropic generator's values.",
+    level="other", technique="static analysis: taint analysis with bound-evidence over the grid generators; abstract interpretation of chooseNumberOfLevels; symbolic interpretation of the uniform and the anisotropic generator in exact arithmetic (ordered-set model); interpretation of the grid writer/reader over abstract text streams; structural constructor/endpoint rules",
+    text="Decides, from source: (memory safety) every integer in the grid generators that depends on the caller's parameters through a float->int conversion or unchecked arithmetic carries a runtime lower and upper bound before it is used as an index offset, iterator advance or shift amount (asserts are compiled out); constructors validate after the last coordinate write; (levels) chooseNumberOfLevels, interpreted for nr 2..139 x ntheta 2..129 x level caps, implies coarseningGrid's precondition level by level and rejects fewer than two levels; (values, exact arithmetic) the uniform generator with symbolic R0<Rmax yields end points exactly R0/Rmax, radii increasing by fixed positive fractions of Rmax-R0, fine nodes that are midpoints, divideBy2=k containing divideBy2=k-1 as every-second-node subgrid, angles j/ntheta of 2*pi with antipodal partners; the anisotropic generator (its std::set of doubles modelled as an ordered set of exact values R0 + q*(Rmax-R0)) for refinement radii below, inside, at and beyond [R0,Rmax] and all factors yields the same facts, and inadmissible factors throw; (files) writer and reader interpreted over abstract streams: the reader delivers the written sequence in order and length into the same members, each value a function of the written value and the format only, validation precedes derived data, and library writers use a precision whose rounding stays below the tolerance of the reload checks. Not decided: the same value statements after floating-point rounding.",
     note="Trusted: clang front end, gmgir lowering, the taint rule's evidence vocabulary, the stream model (operator<< / operator>> of doubles, std::fixed, std::setprecision, std::endl, whitespace-separated extraction). The taint rule demands the presence of a runtime bound, not its arithmetic adequacy (adequacy of the repaired window was established once by an ASan/UBSan scan recorded in DESIGN.md).",
     ref="DESIGN.md section 4 / C18"),
  "C08": dict(
